@@ -191,7 +191,9 @@ class ParticleSwarmSampler(BaseSampler):
         existing_losses: NDArray[np.float64],
     ) -> NDArray[np.float64]:
         """Sample a batch of parameters."""
-        if not self.is_set_up:
+        # with an empty history there is nothing to move towards: this is the first call, or the batch proposed
+        # by the previous call was never evaluated (it failed), so the swarm is (re-)initialised
+        if not self.is_set_up or len(existing_points) == 0:
             self._set_up(search_space.dims)
             self._previous_batch_index_start = len(existing_points)
             return digitize_data(
